@@ -21,14 +21,18 @@ META = {
         "feature set implying the features of its whole callee tree; vector loads cover exactly the borrowed arrays / an "
         "asserted chunk; the buffers handed to from_utf8_unchecked can only contain table bytes < 0x80, \"T1\" or hex-simd "
         "output.  Explicit panic sites (unwrap/expect/assert!/indexing/overflow checks) reachable from the public API are "
-        "enumerated and discharged by named idioms; the sites inside Generator::update's length/offset arithmetic and the "
-        "sums of bounded part distances are listed as NOT decided."
+        "enumerated (about 250 per configuration) and discharged by named idioms -- interval reasoning over the dominating "
+        "comparisons, linear relational reasoning, constant folding for the five variants, iterator chunk lengths, "
+        "preconditions checked at every call site, the select_nth post-condition -- including all 26 sites inside "
+        "Generator::update; the documented quartile index assertion and the clean slice panic on a misreporting reader are "
+        "listed as documented; the sums of bounded part distances / kernel accumulators and one debug-only closure assertion "
+        "are listed as NOT decided (never as discharged)."
     ),
     "trusted_base": ["rustc nightly front end, constant evaluator, target-feature implication lists", "core/std/hex-simd are free of UB", "core::arch intrinsics are sound when their target features are available",
                      "core::slice::select_nth_unstable post-condition (left <= pivot <= right)"],
     "assumptions": ["x86_64 target; code behind `unstable` (core::intrinsics::assume, portable SIMD) and non-x86 backends is not compiled here"],
-    "not_decided": ["absence of arithmetic-overflow/bounds panics inside Generator::update's length/offset arithmetic (see C11)",
-                    "that sums of part distances / kernel accumulators stay below u32::MAX (follows from the part maxima, body part not decided)"],
+    "not_decided": ["that sums of part distances / kernel accumulators stay below u32::MAX (follows from the part maxima, body part not decided)",
+                    "the debug-only q1<=q2<=q3 assertion inside naive::get_quartile (closure capture not traced; same condition discharged at the dispatcher)"],
 }
 TECHNIQUE = "unsafe-operation inventory and layering, invariant discharge by constant folding over finite class domains, taint from foreign trait calls, feature-implication dominance, panic-site idiom discharge"
 
@@ -110,6 +114,28 @@ def foreign_trait_calls(b, e):
     return out
 
 
+def classify_invariant(F, b, S, p, d, fails_when, envs):
+    """(discharged?, how) for one invariant condition d (raw) on path p."""
+    e = n(d)
+    tainted = foreign_trait_calls(b, d)
+    if tainted:
+        return False, "fed by caller-supplied %s" % tainted[0]
+    env_list = [env for _, env in (envs or [])]
+    raws = [d]
+    tyof = panics.tyof_factory(S, b, panics.build_tymap(S, raws))
+    B = panics.Bounds(S, p, p.conds[-1][0])
+    panics.LENOF[0] = lambda x, env: panics._slen(F, b, x, B, env, tyof)
+    vs = [panics.cond_truth(e, panics.B0(), tyof, env) for env in env_list]
+    if env_list and all(v is not None and v != fails_when for v in vs):
+        return True, "constant for all five variants"
+    nonzero = any(n(c[1]) == binop("Eq", C(0), P(1)) and ((c[2] == 0) if c[3] == [0] else False) for c in p.conds[:-1])
+    if nonzero and find_all(e, lambda x: x[0] == "call" and x[1].endswith("::leading_zeros") and x[2] == (P(1),)):
+        vals_ = [teval(e, F, c) for c in range(32)]
+        if all(v is not None and bool(v) != fails_when for v in vals_):
+            return True, "table fact for all 32 leading-zero classes"
+    return False, None
+
+
 def invariants(ctx, F):
     r = "R-17.1"
     ctx.rule(r, "every invariant! is discharged from constants / tables / const-generic arithmetic and none is fed by a caller-supplied trait implementation")
@@ -155,35 +181,7 @@ def invariants(ctx, F):
             continue
         seen_keys.add(key)
         ctx.instance(r)
-        tainted = foreign_trait_calls(b, d)
-        ok = False
-        how_d = None
-        if tainted:
-            how_d = "fed by caller-supplied %s" % tainted[0]
-        else:
-            # (a)/(c): decided by constants for every variant
-            env_list = []
-            for nm, env in (envs or []):
-                env = dict(env)
-                key_g = "generate::inner::Generator<%d, %d, %d, %d, %d>" % common.VARIANTS[nm]
-                for k2, v2 in (gen.get(key_g) or {}).items():
-                    env["assoc:" + k2] = v2
-                env_list.append(env)
-            tyof = panics.tyof_factory(S, b)
-            B = panics.Bounds(S, p, p.conds[-1][0])
-            panics.LENOF[0] = lambda x, env: panics._slen(F, b, x, B, env, tyof)
-            vs = [panics.cond_truth(e, panics.B0(), tyof, env) for env in env_list]
-            if env_list and all(v is not None and v != fails_when for v in vs):
-                ok = True
-                how_d = "constant for all five variants"
-            else:
-                # (b): table fact over all leading-zero classes; the argument is a non-zero u32 (dominating len == 0 return)
-                nonzero = any(n(c[1]) == binop("Eq", C(0), P(1)) and ((c[2] == 0) if c[3] == [0] else False) for c in p.conds[:-1])
-                if nonzero and find_all(e, lambda x: x[0] == "call" and x[1].endswith("::leading_zeros") and x[2] == (P(1),)):
-                    vals_ = [teval(e, F, c) for c in range(32)]
-                    if all(v is not None and bool(v) != fails_when for v in vals_):
-                        ok = True
-                        how_d = "table fact for all 32 leading-zero classes"
+        ok, how_d = classify_invariant(F, b, S, p, d, fails_when, envs)
         ctx.ob(r, (b.path, "invariant", sym.fmt(e)[:100]), ok,
                "invariant `%s` in %s is not discharged (%s); under the `unsafe` feature its failure is undefined behaviour" % (sym.fmt(e)[:120], b.path, how_d or "no rule applies"),
                cfg=F.key, where=b.where(), detail={"discharged_by": how_d, "via": how.rsplit("::", 1)[-1]})
@@ -335,22 +333,16 @@ def utf8(ctx, F):
 # ---------------------------------------------------------------- R-17.6
 
 NOT_DECIDED = [
-    # (function path regex, kind regex, reason) -- recorded, not claimed as discharged
-    (r"generate::public::GeneratorType>::update$", r".*", "length/offset arithmetic of update(): run-time lengths (C11 decides the counter guards only)"),
-    (r"FuzzyHashType>::compare_with_config$", r"assert:overflow", "sum of four part distances, each bounded by its MAX_DISTANCE (body part not decided)"),
-    (r"compare::dist_body::(pseudo_simd_32|pseudo_simd_64|x86_avx2|x86_sse2|x86_sse4_1)::distance_", r"assert:overflow", "kernel accumulator: sum of per-chunk distances (kernel arithmetic not decided)"),
-    (r"compare::dist_checksum::distance_3$", r"assert:overflow", "sum <= trip count 3 (loop-carried relation)"),
-]
-# functions with panic sites for which no discharge idiom is implemented yet: recorded as NOT decided (never as discharged)
-PENDING = [
-    r"GeneratorType>::finalize_with_options$", r"FuzzyHashBody>::quartile$", r"core::fmt::Display>::fmt$", r"FuzzyHashType>::max_distance$",
-    r"^compare::dist_body::(pseudo_simd_32|pseudo_simd_64)::distance_", r"^compare::dist_qratios::naive::distance$", r"^compare::utils::distance_on_ring_mod$",
-    r"^generate::bucket_aggregation::(naive::)?aggregate_(48|128|256)", r"^generate::bucket_aggregation::naive::get_quartile$",
-    r"^generate::bucket_aggregation::x86_(sse2|ssse3|avx2)::", r"^generate_easy_std::hash_stream_common$", r"^length::FuzzyHashLengthEncoding::(new|range)$",
-    r"^parse::hex_str::encode_rev_(1|array)$", r"^parse::hex_str::encode_array$", r"serde::Serialize>::serialize$",
+    # (function path regex, kind regex, reason) -- recorded, never claimed as discharged
+    (r"FuzzyHashType>::compare_with_config$", r"assert:overflow", "sum of four part distances, each bounded by its MAX_DISTANCE (body part bound not decided statically)"),
+    (r"^compare::dist_body::(pseudo_simd_32|pseudo_simd_64|x86_avx2|x86_sse2|x86_sse4_1)::distance_", r"assert:overflow", "kernel accumulator: sum of per-chunk distances (kernel arithmetic not decided)"),
+    (r"^compare::dist_checksum::distance_3$", r"assert:overflow", "sum <= trip count 3 (loop-carried relation between the two counters)"),
+    (r"^compare::dist_qratios::naive::distance$", r"assert:overflow", "sum of two sub-distances <= 168 (follows from the table maximum, R-08.1; not re-derived here)"),
+    (r"^generate::bucket_aggregation::naive::get_quartile$", r"panic", "debug-only assertion q1<=q2<=q3 behind a closure capture; the same condition is discharged at the dispatcher (select_nth post-condition)"),
 ]
 DOCUMENTED = [
     (r"hash::body::FuzzyHashBody>::quartile$", r"panic", "documented: panics if index >= NUM_BUCKETS"),
+    (r"^generate_easy_std::hash_stream_common$", r"index", "a reader that misreports its length causes a clean slice-index panic (explicitly allowed by the property)"),
 ]
 GENERATED = [r"^generate::_::", r"^<generate::_::", r"^hash::qratios::_::", r"InnerQRatios"]
 
@@ -372,8 +364,6 @@ def panic_sites(ctx, F):
         p = s.body.path
         doc = [d for d in DOCUMENTED if re.search(d[0], p) and re.search(d[1], s.kind)]
         und = [d for d in NOT_DECIDED if re.search(d[0], p) and re.search(d[1], s.kind)]
-        if not und and any(re.search(g, p) for g in PENDING):
-            und = [(None, None, "no discharge idiom implemented for this function's remaining sites")]
         ok = not s.undischarged and bool(s.idioms)
         if ok:
             ctx.ob(r, key, True, "", cfg=F.key, where=s.body.where(), detail={"idioms": sorted(s.idioms)})
@@ -390,4 +380,186 @@ def panic_sites(ctx, F):
 
 
 def extra_idioms(F, sites, envs):
-    pass
+    """Property-specific discharges that rest on other rules of this framework (each named)."""
+    G = callgraph.CallGraph(F)
+    panics.preconditions(F, G, sites, envs)
+    env_list = [e for _, e in (envs or [])]
+    unwrap_ok = None
+    for s in sites:
+        if not s.undischarged:
+            continue
+        b = s.body
+        p_ = b.path
+        t = s.term
+        macs = (t.get("loc") or {}).get("macros") or []
+        S = sym.Sym(b)
+        # (1) debug_assert expansions of invariant!: discharged by the R-17.1 classification
+        if s.kind == "panic" and any(m.rsplit("::", 1)[-1] in ("invariant_impl", "invariant") for m in macs):
+            ok_all = True
+            seen = False
+            for p in S.paths():
+                if s.bb not in p.blocks or not p.conds:
+                    continue
+                seen = True
+                (bb, d, taken, vals) = p.conds[-1]
+                fails_when = (taken == "otherwise") if vals == [0] else bool(taken)
+                ok, how = classify_invariant(F, b, S, p, d, fails_when, envs)
+                ok_all = ok_all and ok
+            if seen and ok_all:
+                s.undischarged = []
+                s.idioms.add("invariant-discharged (R-17.1)")
+            continue
+        if re.search(r"^length::FuzzyHashLengthEncoding::new$", p_) and s.kind == "index":
+            # (2) T[bottom..top]: bottom <= top <= len(T) for all 32 leading-zero classes
+            ok_all = True
+            seen = False
+            for p in S.paths():
+                for c in p.calls:
+                    if c[0] != s.bb:
+                        continue
+                    seen = True
+                    a = [n(x) for x in c[2]]
+                    rng = a[1]
+                    base_len = teval(("len", a[0]), F, 0)
+                    if rng[0] != "agg" or not rng[1].endswith("Range::Range") or base_len is None:
+                        ok_all = False
+                        continue
+                    for clz in range(32):
+                        lo, hi = teval(rng[2][0], F, clz), teval(rng[2][1], F, clz)
+                        if lo is None or hi is None or not (0 <= lo <= hi <= base_len):
+                            ok_all = False
+            if seen and ok_all:
+                s.undischarged = []
+                s.idioms.add("table-window for all 32 leading-zero classes")
+            continue
+        if re.search(r"GeneratorType>::finalize_with_options$", p_):
+            if s.kind == "unwrap":
+                for p in S.paths():
+                    for c in p.calls:
+                        if c[0] == s.bb:
+                            a0 = n(c[2][0])
+                            if a0[0] == "call" and a0[1] == "length::FuzzyHashLengthEncoding::new":
+                                if unwrap_ok is None:
+                                    unwrap_ok = c11.encoder_unwrap_ok(F)
+                                if unwrap_ok:
+                                    s.undischarged = []
+                                    s.idioms.add("dominated-option (R-11.2)")
+            if s.kind == "call" and s.what == "select_nth_unstable":
+                ok_all = bool(env_list)
+                seen = False
+                for p in S.paths():
+                    for c in p.calls:
+                        if c[0] != s.bb:
+                            continue
+                        seen = True
+                        a = [n(x) for x in c[2]]
+                        for env in env_list:
+                            L = select_len(F, b, a[0], env)
+                            r_ = layout.ceval(a[1], env)
+                            if L is None or r_ is None or not (0 <= r_ < L):
+                                ok_all = False
+                if seen and ok_all:
+                    s.undischarged = []
+                    s.idioms.add("select-rank-in-range")
+            continue
+        if re.search(r"hash::inner::FuzzyHash<.*(core::fmt::Display>::fmt|serde::Serialize>::serialize)$", p_) and s.kind == "unwrap":
+            for p in S.paths():
+                for c in p.calls:
+                    if c[0] != s.bb:
+                        continue
+                    a0 = n(c[2][0])
+                    if a0[0] == "call" and a0[1].endswith(("::store_into_str_bytes", "::store_into_bytes")):
+                        if gated_buffer_ok(F, b, a0, envs):
+                            s.undischarged = []
+                            s.idioms.add("gated-buffer (R-14.1): local buffer at least the gated size for every variant")
+                    elif a0[0] == "call" and a0[1] == "core::str::from_utf8":
+                        if utf8_buffer_ok(F, b):
+                            s.undischarged = []
+                            s.idioms.add("ascii-only-buffer (R-17.5)")
+
+
+def select_len(F, b, e, env):
+    """Length of the slice a select_nth_unstable is applied to, following its post-condition (left, pivot, right)."""
+    SEL = "core::slice::<impl [T]>::select_nth_unstable"
+    if e[0] == "ref" and e[1][0] in ("lv", "mutated"):
+        l = e[1][1] if e[1][0] == "lv" else (e[1][1][1] if isinstance(e[1][1], tuple) else e[1][1])
+        return panics.local_array_len(F, b, l, env)
+    if e[0] == "field" and e[1][0] == "call" and e[1][1] == SEL:
+        inner = e[1]
+        L = select_len(F, b, inner[2][0], env)
+        r_ = layout.ceval(inner[2][1], env)
+        if L is None or r_ is None:
+            return None
+        return r_ if e[2] == 0 else (L - r_ - 1 if e[2] == 2 else None)
+    return None
+
+
+def gated_buffer_ok(F, b, call, envs):
+    """store_into_*(self, &mut buf, [WithVersion]) with buf a local array at least as long as the callee's gate constant."""
+    lv = find_all(call, lambda x: x[0] == "lv" or (x[0] == "mutated"))
+    loc = None
+    for x in lv:
+        if x[0] == "lv":
+            loc = x[1]
+        elif x[0] == "mutated":
+            loc = x[1][1] if isinstance(x[1], tuple) else x[1]
+    if loc is None:
+        return False
+    text = call[1].endswith("::store_into_str_bytes")
+    if text:
+        if len(call[2]) != 3 or call[2][2] != ("agg", "adt:hash::HexStringPrefix::WithVersion", ()):
+            return False
+    W, err = (layout.text_writer(F) if text else layout.binary_writer(F))
+    if W is None:
+        return False
+    if text:
+        rec = W["errs"].get("WithVersion")
+        gate = rec["gate"][0] if rec and rec["gate"] else None
+        only_gate = rec is not None and rec["writes"] == 0 and set(W["errs"]) == {"Empty", "WithVersion"}
+    else:
+        gate = W["err"]["gate"][0] if W["err"] and W["err"]["gate"] else None
+        only_gate = W["err"] is not None and not W["err"]["writes"]
+    if gate is None or not only_gate:
+        return False
+    for _, env in (envs or []):
+        L = panics.local_array_len(F, b, loc, env)
+        K = layout.ceval(gate, env)
+        if L is None or K is None or L < K:
+            return False
+    return bool(envs)
+
+
+def utf8_buffer_ok(F, b):
+    S = sym.Sym(b)
+    for p in S.paths():
+        for (bb, cp, args, c) in p.calls:
+            if cp != "core::str::from_utf8":
+                continue
+            lv = find_all(n(args[0]), lambda x: x[0] == "lv")
+            if not lv:
+                return False
+            l = lv[0][1]
+            init = [d for d in b.defs().get(l, []) if d[2].get("rv") == "repeat"]
+            zero = bool(init) and (init[0][2]["op"].get("const") or {}).get("v") == 0
+            writers = set()
+            for (bb2, cp2, args2, c2) in p.calls:
+                if bb2 == bb:
+                    break
+                for x in args2:
+                    while x[0] == "cast":
+                        x = x[3]
+                    if x[0] == "ref" and x[1] and x[2] == ("lv", l):
+                        writers.add(cp2)
+            if not zero or not writers or not all(w.endswith("::store_into_str_bytes") for w in writers):
+                return False
+    W, err = layout.text_writer(F)
+    if W is None:
+        return False
+    for mode, rec in W["modes"].items():
+        if rec["unknown"]:
+            return False
+        for (s_, e_, kind, src, ln) in rec["writes"]:
+            if not (kind in ("rev_array", "rev_1", "plain_array", "literal:5431") or kind.startswith("hex_simd")):
+                return False
+    enc = F.const_bytes("parse::hex_str::HEX_UPPER_NIBBLE_TABLE")
+    return enc is not None and all(x < 0x80 for x in enc)
